@@ -788,6 +788,130 @@ for _d, _ens, _rai in (
     _c.ghost_state = ("__table",)
     TASKS.append(FunctionTask(_c, module_env=_SP_ENV, label=f"{_QP}summarize_spatial_statistics[{_d}]", clauses=["the spatial summary table lists the statistics it is given"]))
 
+# ---------------------------------------------------------------------------------------------------------------------
+# plot_azimuthal_contour_3d (given axes, peaks on): the surface is drawn over (log10 of the frequency grid, the azimuth grid, the amplitude grid) of the mesh helper for
+# distribution_mc; the markers are the per-azimuth mean-curve peaks of the same distribution, closed at 180 degrees by the first azimuth's peak: x = log10 of the peak
+# frequencies, y = the object's azimuths and 180, z = 1.05 x the peak amplitudes.
+from pyvc.npmodel import LOG10 as _LOG10c
+
+
+def _m_log10(ex, st, args, kw, node):
+    v = args[0]
+    if isinstance(v, (Tup, tuple)):
+        return Tup(_LOG10c(npm.real(x)) for x in v)
+    if isinstance(v, ARef) and ex.arr(st, v).rank == 2:
+        d = ex.arr(st, v)
+        r, c = z3.Ints("r!lg c!lg")
+        from pyvc.core import L2 as _L2
+        return ex.alloc_arr(st, d.shape, _L2(r, c, _LOG10c(ex.sel2(d, r, c))), "real", "fresh", tag="log10")
+    return npm.NP.attrs["log10"].fn(ex, st, args, kw, node)
+
+
+def _surface_ok(ex, st, a, k, n_):
+    calls = [c for c in st.env["__drawn"] if c[0] in ("plot_surface", "scatter", "plot", "contourf")]
+    if [c[0] for c in calls] != ["plot_surface", "scatter"]:
+        return z3.BoolVal(False)
+    sf, sc = calls
+    if len(sf[1]) != 3 or len(sc[1]) != 3 or not all(isinstance(x, ARef) for x in list(sf[1]) + list(sc[1])):
+        return z3.BoolVal(False)
+    gx, gy, gz = (ex.arr(st, x) for x in sf[1])
+    px, py, pz = (ex.arr(st, x) for x in sc[1])
+    r, c = z3.Ints("r!sf c!sf")
+    frq, azi = z3.Const("mesh_frq", _A2c(R)), z3.Const("mesh_azi", _A2c(R))
+    j = z3.Int("j!sc")
+    pk_f, pk_a = PKBA_F(DMC_), PKBA_A(DMC_)
+    az = lambda t: z3.If(t == 0, AZP[0], z3.If(t == 1, AZP[1], z3.If(t == 2, AZP[2], z3.RealVal(180))))
+    wrap = lambda arr, t: z3.Select(arr, z3.If(t == 3, 0, t))
+    return z3.And(
+        z3.ForAll([r, c], z3.Implies(z3.And(r >= 0, r < 4, c >= 0, c < MP), z3.And(ex.sel2(gx, r, c) == _LOG10c(z3.Select(z3.Select(frq, r), c)), ex.sel2(gy, r, c) == z3.Select(z3.Select(azi, r), c),
+                                                                                   ex.sel2(gz, r, c) == z3.Select(z3.Select(MESHAMP(DMC_), r), c)))),
+        px.shape[0] == 4, py.shape[0] == 4, pz.shape[0] == 4,
+        z3.ForAll([j], z3.Implies(z3.And(j >= 0, j < 4), z3.And(ex.sel1(px, j) == _LOG10c(wrap(pk_f, j)), ex.sel1(py, j) == az(j), ex.sel1(pz, j) == wrap(pk_a, j) * z3.RealVal("1.05")))))
+
+
+def _c3d_inputs(ex, st):
+    st.env["hvsr"] = _az_obj(ex, st)
+    st.env["ax"] = sym_obj(ex, st, "Axes", {"xaxis": OpaqueV("xaxis"), "yaxis": OpaqueV("yaxis"), "zaxis": OpaqueV("zaxis")}, owner="param:ax")
+    st.env.update(distribution_mc=DMC_, plot_mean_curve_peak_by_azimuth=z3.BoolVal(True), camera_elevation=z3.RealVal(35), camera_azimuth=z3.RealVal(250), camera_distance=z3.RealVal(13))
+    st.env["__drawn"] = Tup(())
+    st.env["MP"] = MP
+    return [MP >= 1]
+
+
+_C3D_REG = dict(_AZREG)
+for _m in ("plot_surface", "scatter", "set_xticks", "set_xticklabels", "set_xlim", "view_init", "set_yticks", "set_ylim", "set_xlabel", "set_ylabel", "set_zlabel", "legend"):
+    _C3D_REG[f"Axes.{_m}"] = _m_ax_record(_m)
+_C3D_ENV = dict(_CONT_ENV, np=ModV("np", dict(npm.NP.attrs, log10=FuncV(_m_log10, "np.log10"), arange=FuncV(lambda ex, st, a, k, n_: OpaqueV("ticks"), "np.arange"))), str=FuncV(lambda ex, st, a, k, n_: StrV("<str>"), "str"))
+_C3D_ENV["DEFAULT_KWARGS"] = DictV(dict(_DEFAULTS.items, peak_mean_hvsr_curve_azimuthal_3d=_kw({"label": "peak_mean_hvsr_curve_azimuthal_3d"})), owner="module")
+CONTOUR3D = Contract(qual=_QP + "plot_azimuthal_contour_3d", params=["hvsr", "distribution_mc", "ax", "plot_mean_curve_peak_by_azimuth", "camera_elevation", "camera_azimuth", "camera_distance"],
+                     ghost={"surface_ok": FuncV(_surface_ok, "surface_ok")}, make_inputs=_c3d_inputs, ensures=["surface_ok()", "result is None"], modifies=["param:ax"],
+                     notes="one surface over the three grids of the mesh helper (frequency in log10), one scatter of the per-azimuth peaks for the same distribution, closed at 180 degrees "
+                           "by the first azimuth's peak, amplitudes lifted by 5 %; the object is not written")
+CONTOUR3D.ghost_state = ("__drawn",)
+TASKS.append(FunctionTask(CONTOUR3D, module_env=_C3D_ENV, registry=_C3D_REG, label=_QP + "plot_azimuthal_contour_3d[given axes, peaks on]",
+                          clauses=["the azimuthal surface shows the object's per-azimuth mean curves and their peaks for the distribution asked for"]))
+
+# ---------------------------------------------------------------------------------------------------------------------
+# plot_azimuthal_summary (every optional part switched on): three panels on three axes of one figure - the 3-D surface, the 2-D contour, the single panel of curves -
+# each for the caller's object, the contours and the curves for distribution_mc, the fn band of the single panel for distribution_fn; then the mean-curve peak once
+# more on the third panel for distribution_mc.  The four plotting functions are opaque here (their contracts: above).
+_SUM_FUNCS = ("plot_azimuthal_contour_3d", "plot_azimuthal_contour_2d", "plot_single_panel_hvsr_curves", "_plot_peak_mean_hvsr_curve")
+
+
+def _m_figure(ex, st, args, kw, node):
+    def add_subplot(e2, s2, a2, k2, n2):
+        n = len(s2.env["__axes"])
+        ax = e2.alloc_obj(s2, "Axes", {"index": z3.IntVal(n)}, "fresh")
+        s2.env["__axes"] = s2.env["__axes"] + [ax]
+        return ax
+    gs = ModV("gridspec", {"__getitem__": FuncV(lambda e2, s2, a2, k2, n2: OpaqueV("gridspec cell"), "gridspec[...]")})
+    return ModV("figure", {"add_gridspec": FuncV(lambda e2, s2, a2, k2, n2: gs, "add_gridspec"), "add_subplot": FuncV(add_subplot, "add_subplot"),
+                           "subplots_adjust": FuncV(lambda e2, s2, a2, k2, n2: NONE, "subplots_adjust"), "text": FuncV(lambda e2, s2, a2, k2, n2: OpaqueV("text"), "text")})
+
+
+def _sum_inputs(ex, st):
+    st.env["hvsr"] = _az_obj(ex, st)
+    on = z3.BoolVal(True)
+    st.env.update(distribution_mc=DMC_, distribution_fn=DFN_, plot_mean_curve_peak_by_azimuth=on, plot_valid_curves=on, plot_invalid_curves=on, plot_mean_curve=on,
+                  plot_frequency_std=on, plot_peak_mean_curve=on, plot_peak_individual_valid_curves=on, plot_peak_individual_invalid_curves=on)
+    st.env["__drawn"], st.env["__axes"] = Tup(()), []
+    return []
+
+
+def _summary_ok(ex, st, a, k, n_):
+    calls = [c for c in st.env["__drawn"] if c[0] in _SUM_FUNCS]
+    axes = st.env["__axes"]
+    if [c[0] for c in calls] != list(_SUM_FUNCS) or len(axes) != 3:
+        return z3.BoolVal(False)
+    conj = []
+    for c, ax_i, dist_kw in zip(calls, (0, 1, 2, 2), ("distribution_mc", "distribution_mc", "distribution_mc", "distribution")):
+        args_, kw_ = c[1], c[2]
+        hv = kw_.get("hvsr", args_[0] if args_ else None)
+        if hv is not st.env["hvsr"] or not isinstance(kw_.get("ax"), ORef) or kw_["ax"].oid != axes[ax_i].oid or dist_kw not in kw_:
+            return z3.BoolVal(False)
+        conj.append(lit(kw_[dist_kw]) == DMC_)
+    panel = calls[2][2]
+    if "distribution_fn" not in panel:
+        return z3.BoolVal(False)
+    conj.append(lit(panel["distribution_fn"]) == DFN_)
+    for flag in ("plot_valid_curves", "plot_invalid_curves", "plot_mean_curve", "plot_frequency_std", "plot_peak_individual_valid_curves", "plot_peak_individual_invalid_curves"):
+        if flag not in panel:
+            return z3.BoolVal(False)
+        conj.append(lit(panel[flag]) == z3.BoolVal(True))
+    return z3.And(*conj)
+
+
+_AX_SUM = {f"Axes.{m}": FuncV(lambda ex, st, a, k, n_: OpaqueV("axes call"), m) for m in ("set_xlabel", "set_xticks", "get_legend", "legend")}
+SUMMARY = Contract(qual=_QP + "plot_azimuthal_summary",
+                   params=["hvsr", "distribution_mc", "distribution_fn", "plot_mean_curve_peak_by_azimuth", "plot_valid_curves", "plot_invalid_curves", "plot_mean_curve", "plot_frequency_std",
+                           "plot_peak_mean_curve", "plot_peak_individual_valid_curves", "plot_peak_individual_invalid_curves"],
+                   ghost={"summary_ok": FuncV(_summary_ok, "summary_ok")}, make_inputs=_sum_inputs, ensures=["summary_ok()"], modifies=[],
+                   notes="3-D surface on the first axes, 2-D contour on the second, curves on the third: each for the caller's object and distribution_mc, the fn band for distribution_fn, "
+                         "every switched-on part forwarded; the mean-curve peak once more on the third axes for distribution_mc")
+SUMMARY.ghost_state = ("__drawn", "__axes")
+TASKS.append(FunctionTask(SUMMARY, module_env=dict(_P_ENV, plt=ModV("plt", {"figure": FuncV(_m_figure, "plt.figure")}), **{h: _helper_model(h) for h in _SUM_FUNCS}), registry=_AX_SUM,
+                          label=_QP + "plot_azimuthal_summary[all parts]", clauses=["the summary figure draws every panel for the caller's object and the distribution option that belongs to it"]))
+
 META = dict(
     level="other",
     explanation="frame obligations: the 14 plotting / summary functions write nothing reachable from the HVSR object, the recordings or their keyword-argument "
